@@ -286,6 +286,30 @@ struct Gen<'a, 'b> {
     doc_counter: u32,
     /// nesting depth inside fixed-length list elements
     in_fixed: u32,
+    /// self-contained type definitions seen so far (near-equal mode)
+    pool: Vec<(TypeDef, Known)>,
+}
+
+fn ty_is_self_contained(t: &Ty) -> bool {
+    match t {
+        Ty::Named(_) | Ty::Borrow(_) => false,
+        Ty::Prim(_) | Ty::ErrorContext => true,
+        Ty::List(t) | Ty::FixedList(t, _) | Ty::Option(t) => ty_is_self_contained(t),
+        Ty::Map(k, v) => ty_is_self_contained(k) && ty_is_self_contained(v),
+        Ty::Result(a, b) => a.as_deref().map_or(true, ty_is_self_contained) && b.as_deref().map_or(true, ty_is_self_contained),
+        Ty::Tuple(ts) => ts.iter().all(ty_is_self_contained),
+        Ty::Future(t) | Ty::Stream(t) => t.as_deref().map_or(true, ty_is_self_contained),
+    }
+}
+
+fn def_is_self_contained(k: &DefKind) -> bool {
+    match k {
+        DefKind::Record(fs) => fs.iter().all(|f| ty_is_self_contained(&f.1)),
+        DefKind::Variant(cs) => cs.iter().all(|c| c.1.as_ref().map_or(true, ty_is_self_contained)),
+        DefKind::Enum(_) | DefKind::Flags(_) => true,
+        DefKind::Alias(t) => ty_is_self_contained(t),
+        DefKind::Resource(_) => false,
+    }
 }
 
 #[derive(Default, Clone)]
@@ -623,10 +647,31 @@ impl<'a, 'b> Gen<'a, 'b> {
         let mut scope = iface_scope_prefill;
         let mut used: BTreeSet<String> = scope.iter().map(|k| k.name.clone()).collect();
         let mut items = uses;
+        // copies of self-contained types defined in earlier interfaces: structurally equal
+        // types whose ids are far apart and whose visiting order depends on the world
+        if self.p.near_equal_types && !self.pool.is_empty() {
+            let n = self.t.pick(3);
+            for _ in 0..n {
+                let (td, k) = self.pool[self.t.pick(self.pool.len())].clone();
+                if used.iter().any(|u| u.eq_ignore_ascii_case(&td.name)) {
+                    continue;
+                }
+                used.insert(td.name.clone());
+                scope.push(k);
+                self.features.insert("equal-types-across-interfaces");
+                items.push(Item::Type(td));
+            }
+        }
         let ntypes = self.t.pick(self.p.max_types + 1);
         for _ in 0..ntypes {
             let td = self.typedef(&mut scope, &mut used);
             let orig = td.clone();
+            if self.p.near_equal_types && self.pool.len() < 12 && def_is_self_contained(&td.kind) {
+                let k = scope.iter().find(|k| k.name == td.name).cloned().unwrap();
+                let mut plain = td.clone();
+                plain.docs = None;
+                self.pool.push((plain, k));
+            }
             items.push(Item::Type(td));
             // structurally equal and near-equal clones (for the type-analysis checks)
             if self.p.near_equal_types && !matches!(orig.kind, DefKind::Resource(_)) {
@@ -698,7 +743,7 @@ pub fn generate(tape: &[u16], profile: &Profile) -> Wit {
     let (world_tape, tape) = tape.split_at(k);
     let mut t_world = Tape::new(world_tape);
     let mut t = Tape::new(tape);
-    let mut g = Gen { t: &mut t, p: profile, names: names::NamePool::default(), features: BTreeSet::new(), doc_counter: 0, in_fixed: 0 };
+    let mut g = Gen { t: &mut t, p: profile, names: names::NamePool::default(), features: BTreeSet::new(), doc_counter: 0, in_fixed: 0, pool: vec![] };
     let npkgs = if profile.multi_package { 1 + g.t.pick(3) } else { 1 };
     let mut packages: Vec<Package> = vec![];
     // exported facts per (pkg index, iface name)
@@ -808,7 +853,7 @@ pub fn generate(tape: &[u16], profile: &Profile) -> Wit {
         built.push((pi, pkg));
     }
     // the world lives in the main package
-    let mut g = Gen { t: &mut t_world, p: profile, names: g.names, features: g.features, doc_counter: g.doc_counter, in_fixed: 0 };
+    let mut g = Gen { t: &mut t_world, p: profile, names: g.names, features: g.features, doc_counter: g.doc_counter, in_fixed: 0, pool: g.pool };
     let main_idx = built.iter().position(|(i, _)| *i == 0).unwrap();
     // worlds and interfaces of a package share one namespace
     let mut main_names: BTreeSet<String> = built[main_idx].1.ifaces.iter().map(|i| i.name.clone()).collect();
